@@ -107,6 +107,7 @@ func drawBase(rt *rapid.T) *base {
 	} else {
 		hasPublic := b.class == keys.Signature || b.class == keys.Hybrid || b.class == keys.JWTSignature
 		b.public = hasPublic && rapid.IntRange(0, 3).Draw(rt, "public_keyset") == 0
+		var seenSecrets [][]byte
 		for i := 0; i < n; i++ {
 			label := fmt.Sprintf("k%d", i)
 			info := keys.Draw(rt, label, b.class)
@@ -115,6 +116,22 @@ func drawBase(rt *rapid.T) *base {
 				// IV != 12 / tag != 16) cannot be part of a serialized keyset: take a usable key instead
 				info = keys.DrawTypeUsable(rt, label+"_alt", keys.Types(b.class)[0])
 			}
+			// key material must be unique inside the base keyset (two prefix-less keys sharing an HMAC
+			// key, or differing only in trailing zero bytes, would legitimately answer for each other and
+			// make the self-consistency exercise fail without any defect)
+			dup := false
+			for _, a := range seenSecrets {
+				for _, bb := range info.Secrets {
+					if sameMaterial(a, bb) {
+						dup = true
+					}
+				}
+			}
+			if dup && len(b.ks.Key) > 0 {
+				evid.Add("member_dropped/duplicate-material", 1)
+				continue
+			}
+			seenSecrets = append(seenSecrets, info.Secrets...)
 			var id uint32
 			if info.HasID {
 				id = freeID(used, info.ID)
@@ -1093,4 +1110,16 @@ func TestPublicPartMismatch(t *testing.T) {
 			return map[string]any{"base": desc, "mutation": d, "outcome": outcome, "keyset": ksText(ks)}
 		})
 	})
+}
+
+// sameMaterial reports whether two secrets may be the same key: equal after trimming trailing
+// zero bytes (HMAC zero-pads short keys).
+func sameMaterial(a, b []byte) bool {
+	trim := func(x []byte) []byte {
+		for len(x) > 0 && x[len(x)-1] == 0 {
+			x = x[:len(x)-1]
+		}
+		return x
+	}
+	return bytes.Equal(trim(a), trim(b))
 }
